@@ -165,8 +165,18 @@ Lemma parse_entity_decl_good s c : wf s -> Inv c -> good (post 1 s) (parse_entit
 Proof. intros W HI. unfold parse_entity_decl. gauto. Qed.
 Hint Resolve parse_entity_decl_good : good.
 
+(* each iteration consumes at least one byte (the quote or the closing '>') *)
+Lemma consume_decl_loop_good fuel : forall s, wf s ->
+  s_end s - s_pos s < N.of_nat fuel -> good (adv 1 s) (consume_decl_loop text fuel s).
+Proof.
+  induction fuel; intros s W Hf; [lia|]. cbn [consume_decl_loop].
+  gauto.
+  eapply good_weaken; [eapply IHfuel; [eauto with good|measure]|].
+  intros; gsimp; solve_adv.
+Qed.
+
 Lemma consume_decl_good s : wf s -> good (adv 1 s) (consume_decl text s).
-Proof. intros W. unfold consume_decl. gauto. Qed.
+Proof. intros W. unfold consume_decl. apply consume_decl_loop_good; [exact W|apply fuel_enough; exact W]. Qed.
 Hint Resolve consume_decl_good : good.
 
 Lemma parse_doctype_start_good s : wf s -> good (adv 1 s) (parse_doctype_start text s).
